@@ -10,7 +10,13 @@ bin="$(echo "$id" | tr 'A-Z' 'a-z')"
 tag="$(echo "$repo" | md5sum | cut -c1-8)"
 root="/tmp/fvalt-$id-$tag"
 mkdir -p "$root/verif"
-rsync -a --delete --exclude target /verif/harness/ "$root/harness/"
+# the committed harness (so that edits in progress in /verif/harness do not leak into a trial);
+# FV_WORKTREE_HARNESS=1 uses the working tree instead
+if [ "${FV_WORKTREE_HARNESS:-0}" = "1" ]; then
+    rsync -a --delete --exclude target /verif/harness/ "$root/harness/"
+else
+    rm -rf "$root/harness"; git -C /verif archive HEAD harness | tar -x -C "$root"
+fi
 sed -i "s#path = \"/repo\"#path = \"$repo\"#" "$root/harness/Cargo.toml"
 ln -sfn /verif/findings "$root/verif/findings"
 cp /verif/known_findings.json "$root/verif/known_findings.json"
